@@ -239,6 +239,19 @@ def fold_private_writers(F, touched, is_allowed):
     call site and is called only from allowed writers (or from helpers already folded into them) is folded into each of
     its callers.  Returns (new_touched, folded: {helper: sorted callers})."""
     touched = {k: set(v) for k, v in touched.items()}
+    # private functions that only reach the state through other (non-allowed) writers take part as empty writers,
+    # so that a chain  allowed -> helper A -> helper B(writes)  folds bottom-up
+    grew = True
+    while grew:
+        grew = False
+        for fn in list(touched):
+            if is_allowed(fn) or not F.has(fn):
+                continue
+            for cb, bi, t in F.call_sites(fn):
+                c = cb.root if "{closure" in cb.path else cb.path
+                if c != fn and c not in touched and not is_allowed(c) and F.has(c) and not F.body(c).rec.get("pub"):
+                    touched[c] = set()
+                    grew = True
     folded = {}
     changed = True
     while changed:
@@ -253,11 +266,15 @@ def fold_private_writers(F, touched, is_allowed):
             for cb, bi, t in F.call_sites(fn):
                 callers.add(cb.root if "{closure" in cb.path else cb.path)
             callers.discard(fn)
-            if not callers or not all(is_allowed(c) for c in callers):
+            # a caller is fine if it is an allowed writer, or a helper that was itself folded into allowed writers
+            if not callers or not all(is_allowed(c) or c in folded for c in callers):
                 continue
+            targets = set()
             for c in callers:
+                targets |= {c} if is_allowed(c) else set(folded[c])
+            for c in targets:
                 touched.setdefault(c, set()).update(touched[fn])
-            folded[fn] = sorted(callers)
+            folded[fn] = sorted(targets)
             del touched[fn]
             changed = True
     return touched, folded
